@@ -26,6 +26,7 @@ import (
 	"strconv"
 	"strings"
 	"sync"
+	"sync/atomic"
 	"testing"
 	"testing/synctest"
 	"time"
@@ -86,10 +87,11 @@ type c09Occ struct {
 }
 
 type c09Answer struct {
-	status int // 0: body
-	trans  bool
-	pieces [][]byte
-	end    string // eof | err
+	status  int // 0: body
+	trans   bool
+	pieces  [][]byte
+	end     string // eof | err | stall
+	stalled *atomic.Bool
 }
 
 type c09Pend struct {
@@ -100,14 +102,22 @@ type c09Pend struct {
 }
 
 type c09Body struct {
-	pieces [][]byte
-	end    string
+	pieces  [][]byte
+	end     string
+	ctx     context.Context
+	stalled *atomic.Bool
 }
 
 func (b *c09Body) Read(p []byte) (int, error) {
 	if len(b.pieces) == 0 {
 		if b.end == "err" {
 			return 0, errC09Read
+		}
+		if b.end == "stall" {
+			// silent until the client's read timer cancels the request
+			b.stalled.Store(true)
+			<-b.ctx.Done()
+			return 0, context.Cause(b.ctx)
 		}
 		return 0, io.EOF
 	}
@@ -124,14 +134,14 @@ func (b *c09Body) Close() error { return nil }
 // c09Reg is the fake registry of one pull attempt.
 type c09Reg struct {
 	mu       sync.Mutex
-	manifest func() (int, string, error)            // status, body, transport error
-	plan     func(d blob.Digest) *c09Plan           // called once per chunksums request
-	queues   map[c09Ident][]c09Occ                  // launch-order bookkeeping
+	manifest func() (int, string, error)  // status, body, transport error
+	plan     func(d blob.Digest) *c09Plan // called once per chunksums request
+	queues   map[c09Ident][]c09Occ        // launch-order bookkeeping
 	pending  []*c09Pend
-	seen     map[blob.Digest]int // requests (chunksums or chunk) per layer digest
-	bigSeen  map[blob.Digest]int // chunksums requests per digest
+	seen     map[blob.Digest]int            // requests (chunksums or chunk) per layer digest
+	bigSeen  map[blob.Digest]int            // chunksums requests per digest
 	entryOf  func(d blob.Digest, k int) int // index of the k-th entry with digest d
-	plans    map[int]*c09Plan    // by entry index
+	plans    map[int]*c09Plan               // by entry index
 	unknown  []string
 }
 
@@ -261,7 +271,7 @@ func (r *c09Reg) RoundTrip(req *http.Request) (*http.Response, error) {
 			case a.status != 0:
 				return c09Resp(req, a.status, c09Str(c09ErrBody(a.status)), nil), nil
 			}
-			return c09Resp(req, 200, &c09Body{pieces: a.pieces, end: a.end}, nil), nil
+			return c09Resp(req, 200, &c09Body{pieces: a.pieces, end: a.end, ctx: req.Context(), stalled: a.stalled}, nil), nil
 		case <-req.Context().Done():
 			// like net/http's transport: the cancellation cause (DeadlineExceeded for the
 			// client's read timer, Canceled for a cancelled pull)
@@ -580,7 +590,7 @@ func (g *c09Gen) genAnswer(p *c09Pend, faulty bool) (c09Answer, string) {
 	a := c09Answer{end: "eof"}
 	kind := "good"
 	if faulty {
-		kind = zzverif.Pick(r, []string{"status500", "status404", "transport", "short", "readerr", "corrupt", "extra", "status500", "corrupt"})
+		kind = zzverif.Pick(r, []string{"status500", "status404", "transport", "short", "readerr", "corrupt", "extra", "status500", "corrupt", "stall"})
 	}
 	switch kind {
 	case "status500":
@@ -598,6 +608,12 @@ func (g *c09Gen) genAnswer(p *c09Pend, faulty bool) (c09Answer, string) {
 			data = data[:r.Intn(len(data))]
 		}
 		a.end = "err"
+	case "stall":
+		if len(data) > 0 && r.Chance(4, 5) {
+			data = data[:r.Intn(len(data))]
+		}
+		a.end = "stall"
+		a.stalled = &atomic.Bool{}
 	case "corrupt":
 		if len(data) > 0 {
 			data[r.Intn(len(data))] ^= byte(r.Range(1, 255))
@@ -810,14 +826,24 @@ func c09PullCase(t *testing.T, out *zzverif.Out, rng *zzverif.Rng, dir string, t
 			}
 			return 200, string(m.data), nil
 		}
-		reg.entryOf = func(d blob.Digest, k int) int {
-			for i, l := range all {
-				if l.dig() == d {
-					if k == 0 {
-						return i
-					}
-					k--
+		// Which layer entry sends this chunksums request?  Entries are processed in order by the
+		// main goroutine, and an entry whose blob currently has the manifest's size is skipped
+		// without a request.  "Currently" matters: with a plan reaching past the layer end the
+		// blob of a digest listed several times can be complete for one entry (skipped) and
+		// oversized for a later one (requested).  The blob cannot change between the client's
+		// size check and its request (chunk answers are only released at quiescent points), so
+		// the same look at the file tells which entry is asking.
+		cursor := map[blob.Digest]int{}
+		reg.entryOf = func(d blob.Digest, _ int) int {
+			for i := cursor[d]; i < len(all); i++ {
+				if all[i].dig() != d {
+					continue
 				}
+				if fi, err := os.Stat(c.GetFile(d)); err == nil && fi.Size() != 0 && fi.Size() == all[i].size {
+					continue
+				}
+				cursor[d] = i + 1
+				return i
 			}
 			return 999
 		}
@@ -913,6 +939,15 @@ func c09PullCase(t *testing.T, out *zzverif.Out, rng *zzverif.Rng, dir string, t
 				steps = append(steps, fmt.Sprintf("rel %d %s", k, c09ShowAnswer(a)))
 				reg.remove(w[k])
 				w[k].ch <- a
+				if a.stalled != nil {
+					synctest.Wait()
+					if a.stalled.Load() {
+						// the goroutine sits in Read on a silent body: let its read timer
+						// (and those of the requests still waiting) expire
+						out.Count("step_body_stalled_until_read_timeout")
+						time.Sleep(11 * time.Second)
+					}
+				}
 			}
 		})
 		for _, u := range reg.unknown {
@@ -1117,6 +1152,7 @@ func c09PullCase(t *testing.T, out *zzverif.Out, rng *zzverif.Rng, dir string, t
 	}
 	op := fmt.Sprintf("pull %d %d %d %d %d %d %s", g.thr, g.streams, sc, vf, sg, len(ops), strings.Join(ops, " "))
 	out.Case(op, strings.Join(impls, " | "))
+	c09Tag(tag)
 	seenKind := map[string]bool{}
 	for _, l := range l2s {
 		// one line per (kind, via) per case is enough
@@ -1206,6 +1242,17 @@ func c09ProbeVerifyBeforeLink(t *testing.T) bool {
 
 func c09DirOf(c *blob.DiskCache) string {
 	return filepath.Dir(filepath.Dir(c.GetFile(blob.Digest{})))
+}
+
+// c09Tag appends the replay header of the case just recorded to tags.txt (line-aligned with
+// ops.txt), so that the check can turn an L1 disagreement into a replayable input.
+func c09Tag(tag string) {
+	f, err := os.OpenFile(filepath.Join(zzverif.OutDir(), "tags.txt"), os.O_APPEND|os.O_CREATE|os.O_WRONLY, 0o644)
+	if err != nil {
+		panic(err)
+	}
+	defer f.Close()
+	fmt.Fprintln(f, tag)
 }
 
 func c09ReplayTarget() (seed uint64, kind string, idx int, ok bool) {
@@ -1397,6 +1444,7 @@ func c09PushCase(t *testing.T, out *zzverif.Out, rng *zzverif.Rng, dir, tag stri
 	}
 	op := fmt.Sprintf("push %d %s %d %s %d", n, strings.Join(outs, " "), len(sched), strings.Join(sched, " "), mok)
 	out.Case(op, fmt.Sprintf("%s res=%s", strings.Join(reg.log, " "), res))
+	c09Tag(tag)
 
 	// L2 on the request log, independent of the model
 	accept := make([]string, n)
